@@ -134,3 +134,13 @@ def rsa_mixed_batch(rng, size, slow_budget=1, kinds=None, with_healthy=True):
 
 def rsa_keys(arts, pad=0):
   return [gen.rsa_key(a['n'], a['e'], pad=pad) for a in arts]
+
+
+def install_small_maxdiff(max_diff=2 ** 8):
+  """Configures the aggregate EC check through its documented constructor
+  parameter, exactly as upstream's own tests do, and rebuilds the registry."""
+  from paranoid_crypto.lib import ec_aggregate_checks
+  from paranoid_crypto.lib import paranoid
+  ec_aggregate_checks.CheckECKeySmallDifference.__init__.__defaults__ = (
+      max_diff,)
+  paranoid._check_factory.clear()
